@@ -73,8 +73,8 @@ def expr_arith(ip, opn, a, b):
         ip.vc.assume(z3.Implies(term(zand(a.f["zero"], b.f["zero"])), z))
         return mk_expr(v, Sym(z))
     if opn == "Div":
-        if not ip.vc.decide(vb != 0):
-            raise Unsupported("division by a zero valued expression")
+        # symbolic division (sympy does not raise for a denominator that may
+        # take the value 0); z3's total division
         return mk_expr(va / vb, a.f["zero"])
     raise Unsupported(f"operator {opn} on abstract expressions")
 
